@@ -204,6 +204,14 @@ class Stacker(Transformer):
                     raise ValueError("Feature dimension must not be empty.")
 
             case xr.Dataset():
+                # Auxiliary coordinates along feature dimensions are generally not
+                # shared by all variables and cannot be stacked
+                aux_coords = [
+                    c
+                    for c in X.coords
+                    if c not in X.dims and set(X[c].dims) & set(feature_dims)
+                ]
+                X = X.drop_vars(aux_coords)
                 X = X.to_stacked_array(
                     new_dim=feature_name, sample_dims=(self.sample_name,)
                 )
